@@ -186,16 +186,22 @@ fn k_obs_reenter__unsub_in_teardown() {
 #[kani::proof]
 fn k_obs_reenter__emit_in_complete() {
   let log = Log::new();
+  let again = Flag::new();
   let slot: &'static Slot<Observer<'static, u8>> = Slot::new();
   let ob: Observer<'static, u8> = Observer::new(
     move |x: u8| log.push(EV_N | x as u32),
     move |e: RxError| log.push(EV_E | err_id(&e)),
     move || {
       log.push(EV_C);
-      if let Some(o) = slot.get() {
-        o.next(1);
-        o.error(err(2));
-        o.complete();
+      // re-enter ONCE (a source that signals again from inside the subscriber's terminal callback); the guard keeps the harness
+      // finite even if the library wrongly delivers the second terminal
+      if !again.get() {
+        again.set(true);
+        if let Some(o) = slot.get() {
+          o.next(1);
+          o.error(err(2));
+          o.complete();
+        }
       }
     },
   );
@@ -208,15 +214,19 @@ fn k_obs_reenter__emit_in_complete() {
 #[kani::proof]
 fn k_obs_reenter__emit_in_error() {
   let log = Log::new();
+  let again = Flag::new();
   let slot: &'static Slot<Observer<'static, u8>> = Slot::new();
   let ob: Observer<'static, u8> = Observer::new(
     move |x: u8| log.push(EV_N | x as u32),
     move |e: RxError| {
       log.push(EV_E | err_id(&e));
-      if let Some(o) = slot.get() {
-        o.next(1);
-        o.complete();
-        o.error(err(2));
+      if !again.get() {
+        again.set(true);
+        if let Some(o) = slot.get() {
+          o.next(1);
+          o.complete();
+          o.error(err(2));
+        }
       }
     },
     move || log.push(EV_C),
